@@ -112,6 +112,63 @@ const WRAPPERS = [
   (x, v) => `aloneMethod(${x})`
 ]
 
+// runnable variant for the execution-based monitors: the chosen expression x becomes `(x is primitive ? OP(x) : 0, x)`,
+// so the value that flows on is unchanged (x is evaluated several times - deterministic, and the same in the input and in the output)
+// (only primitive values are fed to the operation: converting a function or class to a string exposes its source text,
+// which no rewriter can keep)
+const guardPrim = (x, op) => `(typeof (${x}) === 'string' || typeof (${x}) === 'number' ? ${op} : 0, ${x})`
+const RUN_WRAPPERS = [
+  x => guardPrim(x, `(${x}) + w.s91`),
+  x => guardPrim(x, `w.s92 + (${x})`),
+  x => guardPrim(x, `\`\${w.s93}:\${${x}}\``),
+  x => guardPrim(x, `String(${x}).trim()`),
+  x => guardPrim(x, `w.s94.concat(${x})`),
+  x => guardPrim(x, `String.prototype.concat.call(w.s95, ${x})`),
+  x => guardPrim(x, `(${x})?.toString?.().trim()`),
+  x => guardPrim(x, `(w.o91.p += ${x})`),
+  x => guardPrim(x, `[w.s96, ${x}].join(w.s97)`),
+  x => guardPrim(x, `w.o92[(${x}) + w.s98]`)
+]
+
+// known finding D7: temporaries of parameter defaults / class field initialisers live in the enclosing activation, so a
+// call made while an enclosing expression has live temporaries clobbers them. Splicing puts calls into such positions
+// at random; programs with that shape are left to the dedicated witnesses (C06 / known_findings.json).
+function hasD7Shape (ast) {
+  let found = false
+  const hasOp = (n) => { let f = false; A.walk(n, x => { if ((x.type === 'BinaryExpression' && x.operator === '+') || (x.type === 'AssignmentExpression' && x.operator === '+=') || (x.type === 'TemplateLiteral' && x.expressions.length) || (x.type === 'CallExpression' && x.callee.type === 'MemberExpression')) f = true }); return f }
+  A.walk(ast, (n) => {
+    if ((n.type === 'FunctionDeclaration' || n.type === 'FunctionExpression') && n.params.some(p => hasOp(p))) found = true
+    if (n.type === 'PropertyDefinition' && n.value && hasOp(n.value)) found = true
+  })
+  return found
+}
+
+// splice into a given runnable program text (the operations use the world object `w`, in scope in every zoo / catalogue body)
+function spliceRunnable (rng, code, module, maxSplices = 3) {
+  let ast
+  try { ast = A.parse(code, { module }) } catch (e) { return null }
+  if (hasD7Shape(ast)) return null
+  const cands = candidates(ast).filter(c => c.inFn && c.type !== 'Literal' && c.type !== 'TemplateLiteral')
+  if (!cands.length) return null
+  const n = Math.min(cands.length, rng.range(1, maxSplices))
+  const chosen = []
+  for (let i = 0; i < n * 3 && chosen.length < n; i++) {
+    const c = rng.pick(cands)
+    if (chosen.some(o => !(c.end <= o.start || c.start >= o.end))) continue
+    chosen.push(c)
+  }
+  chosen.sort((a, b) => b.start - a.start)
+  let text = code
+  const applied = []
+  for (const c of chosen) {
+    const w = rng.int(RUN_WRAPPERS.length)
+    text = text.slice(0, c.start) + RUN_WRAPPERS[w](text.slice(c.start, c.end)) + text.slice(c.end)
+    applied.push(`${c.parent}.${c.key}<${c.type}>:r${w}`)
+  }
+  if (compile(text, module)) return null
+  return { code: text, splices: applied }
+}
+
 // returns [{code, meta}] (only programs V8 still accepts)
 function splice (rng, files, count) {
   const out = []
@@ -147,4 +204,4 @@ function splice (rng, files, count) {
   return out
 }
 
-module.exports = { splice, candidates, WRAPPERS }
+module.exports = { splice, spliceRunnable, candidates, WRAPPERS, RUN_WRAPPERS }
